@@ -119,7 +119,7 @@ def faulty_bytes(sc, st, counts):
     lines = [t for t, _ in st.lines]
     lines = F.apply_line_faults(lines, sc.get('faults') or [], counts)
     body = '\n'.join(lines)
-    if lines and not sc['config'].get('nonewline'):
+    if lines and (not sc['config'].get('nonewline') or lines[-1] == ''):
         body += '\n'
     data = body.encode('utf-8', 'surrogateescape')
     return F.apply_byte_faults(data, sc.get('faults') or [], counts)
